@@ -17,7 +17,44 @@ import assemble, rsx
 from verus_run import UnitResult, Failure
 
 VERIF = assemble.VERIF
-CACHE = os.path.join(VERIF, ".cache", "kani-target")
+CACHE = os.path.join(VERIF, ".cache", "kani-deps")      # dependency artifacts only, never written after it is built
+
+
+def ensure_deps_cache():
+    """Build (once) a target directory holding the compiled *dependencies* of the crate for the Kani
+    toolchain, with every artifact of the crate itself removed.  Each run copies it into its own
+    scratch directory: runs never share a target directory (sharing one made `cargo kani` analyse the
+    goto binary of the *previous* scratch copy -- stale results), and never see a pre-built `mila`."""
+    import fcntl
+    os.makedirs(os.path.dirname(CACHE), exist_ok=True)
+    lock = open(os.path.join(VERIF, ".cache", "kani-deps.lock"), "w")
+    fcntl.flock(lock, fcntl.LOCK_EX)
+    try:
+        if os.path.isdir(CACHE) and os.path.exists(os.path.join(CACHE, ".complete")):
+            return
+        shutil.rmtree(CACHE, ignore_errors=True)
+        tmp = make_scratch("mila-verif-kanideps.")
+        try:
+            open(os.path.join(tmp, "src", "lib.rs"), "a").write(
+                "\n#[cfg(kani)]\nmod __verif_warm { #[kani::proof] fn warm() { let x: u8 = kani::any(); assert!(x == x); } }\n")
+            env = dict(os.environ, CARGO_TARGET_DIR=CACHE, CARGO_NET_OFFLINE="true")
+            p = subprocess.run(["cargo", "kani", "--harness", "warm", "--output-format", "terse"], cwd=tmp, env=env,
+                               capture_output=True, text=True, timeout=3600)
+            if "VERIFICATION:- SUCCESSFUL" not in p.stdout:
+                raise RuntimeError("could not build the Kani dependency cache: " + (p.stdout + p.stderr)[-600:])
+            # remove everything that belongs to the crate under analysis
+            for root, dirs, files in os.walk(CACHE, topdown=False):
+                for n in files:
+                    if "mila" in n:
+                        os.remove(os.path.join(root, n))
+                for n in dirs:
+                    if "mila" in n:
+                        shutil.rmtree(os.path.join(root, n), ignore_errors=True)
+            open(os.path.join(CACHE, ".complete"), "w").write("ok\n")
+        finally:
+            shutil.rmtree(tmp, ignore_errors=True)
+    finally:
+        fcntl.flock(lock, fcntl.LOCK_UN)
 
 
 def make_scratch(prefix="mila-verif-kani."):
@@ -113,17 +150,18 @@ def run_unit(uname, ucfg, tier, keep=False, extra_kani_args=()):
         except (rsx.ExtractError, FileNotFoundError) as e:
             res.status, res.reason = "undecided", "injection: %s" % e
             return res
-        os.makedirs(CACHE, exist_ok=True)
+        ensure_deps_cache()
+        private_target = os.path.join(tmp, "target")
+        shutil.copytree(CACHE, private_target, symlinks=True)
         cmd = ["cargo", "kani"] + cfg.get("kani_args", ["-Z", "function-contracts", "-Z", "stubbing"])
         for h in hs:
             cmd += ["--harness", h["name"]]
         cmd += ["-j", str(cfg.get("jobs", 8)), "--output-format", "terse"] + list(extra_kani_args)
-        env = dict(os.environ, CARGO_TARGET_DIR=CACHE, CARGO_NET_OFFLINE="true")
+        env = dict(os.environ, CARGO_TARGET_DIR=private_target, CARGO_NET_OFFLINE="true")
         res.cmd = " ".join(cmd) + "   (in a scratch copy of /repo with the harnesses of contracts/kani/%s injected)" % uname
         try:
-            # one Kani run at a time on this machine: concurrent `cargo kani` invocations sharing a
-            # target directory overwrite each other's goto binaries (and 12 CBMC jobs each can
-            # exhaust memory)
+            # one Kani run at a time on this machine (memory: each run starts up to `jobs` CBMC
+            # processes); every run has its own target directory, see ensure_deps_cache()
             import fcntl
             lock = open(os.path.join(VERIF, ".cache", "kani.lock"), "w")
             fcntl.flock(lock, fcntl.LOCK_EX)
